@@ -197,10 +197,14 @@ def curWeight {P : Type} (g : Graph P) (cur : Cur P) : Nat :=
    | .nodes => (remainingNodes g cur.last).length + 1 + g.edges.length + 1
    | .edges => (remainingEdges g cur.last).length + 1)
 
+def restWeight {P : Type} : List (Graph P) → Nat
+  | [] => 0
+  | g :: gs => graphWeight g + restWeight gs
+
 def measure {P : Type} (db : List (Graph P)) (v : Ckpt P) : Nat :=
   match db.drop v.done.length with
   | [] => 0
-  | g :: rest => curWeight g (curOf v) + (rest.map graphWeight).foldl (· + ·) 0
+  | g :: rest => curWeight g (curOf v) + restWeight rest
 
 /-- an uninterrupted `Dump` into an empty directory -/
 def dumpOps {P : Type} (db : List (Graph P)) (ident : Identity) : List (FsOp P) :=
@@ -240,10 +244,15 @@ def pathsOk {P : Type} (gname : String) : List (Frag P) → Nat → Nat → Bool
     | .nodes => f.path == ⟨gname, .nodes, kn + 1⟩ && pathsOk gname fs (kn + 1) ke
     | .edges => f.path == ⟨gname, .edges, ke + 1⟩ && pathsOk gname fs kn (ke + 1)
 
+/-- completed graphs are the first requested targets, in order, with well numbered fragment paths -/
+def doneValid {P : Type} : List (Done P) → List String → Bool
+  | [], _ => true
+  | d :: ds, n :: ns => n == d.name && pathsOk d.name d.files 0 0 && doneValid ds ns
+  | _ :: _, [] => false
+
 /-- `validateDumpCheckpoint` (the part that concerns the protocol; manifest format checks are C20's) -/
 def validCkpt {P : Type} (ident : Identity) (v : Ckpt P) : Bool :=
-  decide (v.done.length ≤ ident.graphs.length) &&
-  (v.done.zipIdx.all (fun (d, i) => ident.graphs[i]? == some d.name && pathsOk d.name d.files 0 0)) &&
+  doneValid v.done ident.graphs &&
   (match v.current with
    | none => true
    | some c =>
@@ -277,9 +286,15 @@ def fragmentsOk {P : Type} [DecidableEq P] (fs : FS P) : List (Frag P) → Optio
 def noUnexpected {P : Type} (fs : FS P) (v : Ckpt P) : Bool :=
   fs.all (fun e => e.1 == .ckpt || (committed v).any (fun f => FPath.frag f.path == e.1))
 
+/-- `validateCompletedDumpSources`: the recorded counts of every completed graph equal the source's -/
+def doneSourceOk {P : Type} : List (Done P) → List (Graph P) → Bool
+  | [], _ => true
+  | d :: ds, g :: gs => counts g == (d.nodeCount, d.edgeCount) && doneSourceOk ds gs
+  | _ :: _, [] => false
+
 /-- `validateCompletedDumpSources` and the snapshot comparison at the start of `dumpGraph` -/
 def sourceOk {P : Type} (db : List (Graph P)) (v : Ckpt P) : Bool :=
-  (v.done.zipIdx.all (fun (d, i) => match db[i]? with | some g => counts g == (d.nodeCount, d.edgeCount) | none => false)) &&
+  doneSourceOk v.done db &&
   (match v.current with
    | some c => (match c.snapshot, db[c.index]? with
      | some s, some g => counts g == s
